@@ -28,11 +28,14 @@ func init() {
 			"CHAINS of Contract / SplitEdge applied to ONE value: all chains of <= 3 steps (all vertex pairs) on all labelled graphs n <= 4 and on ~80 named generator / decoder values, seeded chains of 2..5 steps on graphs up to 12 vertices, started from values of every origin (struct literal, NewDense, NewSparse, edits, Graph6/Sparse6/Multicode/Pruefer decoders, ComplementDense, LineGraphDense, Copy, InducedSubgraph, RemoveVertex of a supergraph, generators), with a Complement view and an InducedSubgraph view taken before the chain and re-read after the steps. " +
 			"EDIT CHAINS UNDER LIVE VIEWS: Complement(g), InducedSubgraph(g,V) (several), Complement(InducedSubgraph(g,V)), InducedSubgraph(Complement(g),V) are taken and completely read (also vertex by vertex in turn) BEFORE g is edited (AddEdge, RemoveEdge, move an edge, add-then-remove, swap two edges - the last three keep M -, in the seeded part also Contract / SplitEdge / AddVertex / RemoveVertex), and completely re-read after the steps (some steps are deliberately left unread): all chains of <= 2 edits on all labelled graphs n <= 4, seeded chains of 2..6 steps up to 12 vertices. " +
 			"INDEPENDENCE of several results: MulticodeDecodeMultiple (all streams of 2 / 3 records over 9 small graphs incl. n = 0, 1, seeded streams of 2..5 records) and source + Copy + InducedSubgraph copies of one graph: one value is edited (AddVertex, RemoveVertex, edge edits, Contract, SplitEdge), all values are re-read against their own models after every step. " +
+			"FREEDOMS OF THE FORMATS AND OF THE REPRESENTATIONS (variants.go), for every input graph of the per-graph workload: Sparse6Decode is also fed strings of two independent harness-side writers (codec.Sparse6Alt and the c06 writer, each string certified by the independent reader codec.Sparse6Scan) with the pairs of a vertex in any order, pairs repeated next to and apart from their first occurrence, loop pairs, every way of moving to the next vertex, moves to vertices without pairs, pairs behind a vertex number >= n and the optional header (the result must be the simple graph of the string); MulticodeDecode / MulticodeDecodeMultiple records with the neighbour lists in any order inside a larger buffer; Graph6Decode with the optional header; NewDense with edge bytes 2..255 and NewSparse / PruferDecode with slices that have spare capacity (re-read after the caller reused its buffer). " +
+			"EVERY TRANSFORMATION (ComplementDense, Complement, LineGraphDense, InducedSubgraph view and method, SplitEdge, Contract) also gets its argument as rg.DenseVariant / rg.SparseVariant (edge bytes 1..255, dirty spare capacity behind every slice: representation dense-variant / sparse-variant), as a value the library itself made from such inputs (made-dense: NewDense(bytes 1..255), Copy / ComplementDense / InducedSubgraph of a DenseVariant, MulticodeDecode(free order); made-sparse: NewSparse(spare capacity), Sparse6Decode(free-form string), Copy / InducedSubgraph of a SparseVariant) and as a live view over a variant; quick: one of these four representations per graph (a function of the graph) with a few vertex lists / pairs, thorough: all four with all lists / pairs. The same 11 kinds of values are start values of the Contract / SplitEdge chains (where chains run from every start value: all in thorough, one in rotation in quick), of the edit chains under live views and of the copies-of-one-graph workload. " +
 			"non-trivial = judged value with n >= 3 and m >= 1; distinct = hash of (API, representation, concrete input)",
 		Assumptions: []string{
 			"oracle: rg.G bit matrix + definitions in ref.go written from the documentation strings / textbook definitions (self-checked against published counts and automorphism group orders)",
 			"parameters outside the documented domain are not called: Cycle n < 3, GeneralisedPetersenGraph k = 0, FlowerSnark even n or n = 1, RandomTree n < 2, CirculantGraph n = 0, CirculantBipartiteGraph m = 0 with differences, negative sizes, probabilities outside [0,1]",
-			"input graphs for the transformations are built by filling the exported struct fields directly (rg.Dense / rg.Sparse); AddEdge / RemoveEdge on those (used to update the graph under a live view) belong to C05",
+			"input graphs for the transformations are built by filling the exported struct fields directly (rg.Dense / rg.Sparse / rg.DenseVariant / rg.SparseVariant); AddEdge / RemoveEdge on those (used to update the graph under a live view) belong to C05; a library-made argument (made-dense / made-sparse) is used only if it conforms to its model (the constructor itself is judged separately)",
+			"a sparse6 string with repeated pairs or loop pairs (a multigraph in formats.txt) must decode to its underlying simple graph: the result type is a simple graph, the property demands loop-freeness and a pair {x,v} says that x and v are adjacent",
 			"the numbering is taken as documented for CompletePartiteGraph (parts consecutive), KneserGraph (colex), CirculantGraph, CirculantBipartiteGraph (a_i = i, b_j = n+j), GeneralisedPetersenGraph (u_i = i, v_i = n+i); for every other family a differently numbered isomorphic graph is accepted",
 		},
 		Run:            run,
@@ -51,6 +54,26 @@ func init() {
 			"judged:edit-chain|dense|view I", "judged:edit-chain|sparse|view I", "judged:edit-chain|dense|view C", "judged:edit-chain|dense|view CI", "judged:edit-chain|dense|view IC",
 			"probe:MulticodeDecodeMultiple: other results re-read after one was edited", "probe:copies-of-one-graph|dense: other results re-read after one was edited", "probe:copies-of-one-graph|sparse: other results re-read after one was edited",
 			"probe:chain: Complement view taken before the chain re-read after a step", "probe:chain: InducedSubgraph view taken before the chain re-read after a step",
+			// freedoms of the formats (harness-written inputs the library's own writers never produce)
+			"probe:Sparse6Decode of a harness-written free-form string", "probe:Sparse6Decode string with the pairs of a vertex not in ascending order",
+			"probe:Sparse6Decode string with a pair repeated right after itself", "probe:Sparse6Decode string with a repeated pair apart from its first occurrence",
+			"probe:Sparse6Decode string with a loop pair", "probe:Sparse6Decode string with a move to a vertex that gets no pair", "probe:Sparse6Decode string with pairs behind a vertex number >= n",
+			"probe:Sparse6Decode string with the >>sparse6<< header", "probe:Graph6Decode string with the >>graph6<< header",
+			"probe:MulticodeDecode record with a neighbour list not in ascending order", "MulticodeDecodeMultiple records with a neighbour list not in ascending order",
+			"probe:NewDense with edge bytes other than 0/1", "probe:NewSparse with lists that have spare capacity",
+			// representation variants and library-made values as arguments of every transformation
+			"judged:ComplementDense|dense-variant", "judged:ComplementDense|sparse-variant", "judged:ComplementDense|made-dense", "judged:ComplementDense|made-sparse",
+			"judged:Complement|dense-variant", "judged:Complement|sparse-variant", "judged:Complement|made-dense", "judged:Complement|made-sparse",
+			"judged:LineGraphDense|dense-variant", "judged:LineGraphDense|sparse-variant", "judged:LineGraphDense|made-dense", "judged:LineGraphDense|made-sparse",
+			"judged:InducedSubgraph|dense-variant", "judged:InducedSubgraph|sparse-variant", "judged:InducedSubgraph|made-dense", "judged:InducedSubgraph|made-sparse",
+			"judged:InducedSubgraph(copying method)|dense-variant", "judged:InducedSubgraph(copying method)|sparse-variant",
+			"judged:SplitEdge|dense-variant", "judged:SplitEdge|sparse-variant", "judged:SplitEdge|made-dense", "judged:SplitEdge|made-sparse",
+			"judged:Contract|dense-variant", "judged:Contract|sparse-variant", "judged:Contract|made-dense", "judged:Contract|made-sparse",
+			"transformation arguments made by: NewDense(n, edge bytes 1..255)", "transformation arguments made by: Sparse6Decode(free-form string)",
+			"transformation arguments made by: MulticodeDecode(neighbour lists in any order)", "transformation arguments made by: NewSparse(unsorted lists with repeats and spare capacity)",
+			"input views: over a graph in a representation variant",
+			"chains from a start value in a representation variant or made from a free-form input|dense", "chains from a start value in a representation variant or made from a free-form input|sparse",
+			"edit chains under live views of a graph in a representation variant or made from a free-form input|dense", "edit chains under live views of a graph in a representation variant or made from a free-form input|sparse",
 		},
 	})
 }
@@ -61,6 +84,9 @@ type runner struct {
 	// exhaustive: the cases of the running enumeration are distinct by
 	// construction, so non-trivial ones are counted instead of hashed
 	exhaustive bool
+	// extra transformation arguments (variants.go)
+	vsrc   []variantSource
+	madeOK map[string]bool
 }
 
 // fail reports a violation with key api|kind[|witness].  A second failure of
@@ -449,7 +475,11 @@ func (r *runner) prufer(p []int, seeded bool) {
 		witness = ""
 	}
 	detail := map[string]interface{}{"api": "PruferDecode", "code": append([]int{}, p...)}
-	arg := append([]int{}, p...)
+	// the code is a part of a larger buffer of the caller (spare capacity behind it)
+	arg := append(append(make([]int, 0, len(p)+3), p...), 0, 1, 0)[:len(p)]
+	if p == nil {
+		arg = nil
+	}
 	var h *graph.DenseGraph
 	if pi := c.Call(caseKey, func() { h = graph.PruferDecode(arg) }); pi != nil {
 		c.Eval(1)
@@ -549,6 +579,7 @@ type pipeOpts struct {
 	seeded   bool // keys carry no witness
 	allPairs bool // SplitEdge / Contract on every vertex pair (else a few seeded pairs)
 	allSets  bool // InducedSubgraph views on every vertex subset (else a few seeded lists)
+	light    bool // quick tier, extra representations: fewer lists / pairs, no line graphs of graphs with many edges
 }
 
 func gid(g *rg.G) string {
@@ -566,6 +597,24 @@ func (r *runner) perGraph(g *rg.G, rnd *engine.Rng, o pipeOpts) {
 	r.decoders(g, id)
 	for _, repr := range []string{"dense", "sparse", "view"} {
 		r.transforms(g, id, repr, rnd, o)
+		if r.c.Stopped() {
+			return
+		}
+	}
+	// inputs that use the freedoms of the formats / of the representations (variants.go); drawn after the
+	// base workload so that the cases of the base workload do not depend on them
+	r.freedoms(g, id, rnd)
+	// the transformations on the representation variants and on values made by the library from free-form
+	// inputs: quick = one of the four extra representations per graph (in rotation) with a few vertex
+	// lists / pairs; thorough = all four with the options of the base workload
+	extra := extraReprs
+	xo := o
+	if !r.c.Thorough() {
+		extra = extraReprs[contentHash(g)%uint64(len(extraReprs)):][:1] // a function of the graph only (replayable)
+		xo.allPairs, xo.allSets, xo.light = false, false, true
+	}
+	for _, repr := range extra {
+		r.transforms(g, id, repr, rnd, xo)
 		if r.c.Stopped() {
 			return
 		}
@@ -787,10 +836,14 @@ func input(c *engine.Ctx, g *rg.G, repr string, rnd *engine.Rng) (h graph.Graph,
 		// the complement view of the complement of g
 		gc := g.Complement()
 		var under graph.Graph
+		k := (g.N + g.M()) % 3 // 0: plain struct literal; 1, 2: edge bytes 1..255 / dirty spare capacity
 		if rnd.Bool(0.5) {
-			under = gc.Dense()
+			under = gc.DenseVariant(k)
 		} else {
-			under = gc.Sparse()
+			under = gc.SparseVariant(k)
+		}
+		if k > 0 {
+			c.Obs("input views: over a graph in a representation variant", 1)
 		}
 		if pi := c.Call("input complement view|"+gid(g), func() { h = graph.Complement(under) }); pi != nil {
 			c.Obs("input_view_could_not_be_built", 1)
@@ -824,10 +877,14 @@ func input(c *engine.Ctx, g *rg.G, repr string, rnd *engine.Rng) (h graph.Graph,
 		V[v] = inv[v]
 	}
 	var under graph.Graph
+	k := (g.N + g.M()) % 3
 	if rnd.Bool(0.5) {
-		under = shuffled.Dense()
+		under = shuffled.DenseVariant(k)
 	} else {
-		under = shuffled.Sparse()
+		under = shuffled.SparseVariant(k)
+	}
+	if k > 0 {
+		c.Obs("input views: over a graph in a representation variant", 1)
 	}
 	if pi := c.Call("input view|"+gid(g), func() { h = graph.InducedSubgraph(under, V) }); pi != nil {
 		c.Obs("input_view_could_not_be_built", 1)
@@ -867,11 +924,20 @@ func (r *runner) transforms(g *rg.G, id, repr string, rnd *engine.Rng, o pipeOpt
 		c.Eval(1)
 		r.fail(api+"|"+repr, "panic@"+engine.SiteNoLine(pi.Site), "", detail, pi.String(), expected)
 	}
+	extraRepr := repr != "dense" && repr != "sparse" && repr != "view"
+	get := func(detail map[string]interface{}) (graph.Graph, graph.EditableGraph) {
+		if !extraRepr {
+			return input(c, g, repr, rnd)
+		}
+		h, e, note := r.extraInput(g, id, repr, rnd)
+		detail["argument"] = note
+		return h, e
+	}
 
 	// ComplementDense
 	{
 		caseKey, detail := base("ComplementDense")
-		in, edit := input(c, g, repr, rnd)
+		in, edit := get(detail)
 		var h *graph.DenseGraph
 		want := g.Complement()
 		if in == nil {
@@ -890,7 +956,7 @@ func (r *runner) transforms(g *rg.G, id, repr string, rnd *engine.Rng, o pipeOpt
 	// Complement (live view)
 	{
 		caseKey, detail := base("Complement")
-		in, edit := input(c, g, repr, rnd)
+		in, edit := get(detail)
 		var v, vv graph.Graph
 		if in == nil {
 		} else if pi := c.Call(caseKey, func() { v = graph.Complement(in); vv = graph.Complement(v) }); pi != nil {
@@ -913,7 +979,10 @@ func (r *runner) transforms(g *rg.G, id, repr string, rnd *engine.Rng, o pipeOpt
 	// LineGraphDense
 	{
 		caseKey, detail := base("LineGraphDense")
-		in, _ := input(c, g, repr, rnd)
+		var in graph.Graph
+		if !o.light || g.M() <= 45 {
+			in, _ = get(detail)
+		}
 		var h *graph.DenseGraph
 		if in == nil {
 		} else if pi := c.Call(caseKey, func() { h = graph.LineGraphDense(in) }); pi != nil {
@@ -950,7 +1019,11 @@ func (r *runner) transforms(g *rg.G, id, repr string, rnd *engine.Rng, o pipeOpt
 			}
 		} else {
 			lists = append(lists, []int{}, rnd.Perm(n))
-			for k := 0; k < 3; k++ {
+			nl := 3
+			if o.light {
+				nl = 1
+			}
+			for k := 0; k < nl; k++ {
 				p := rnd.Perm(n)
 				lists = append(lists, p[:rnd.Intn(n+1)])
 			}
@@ -959,7 +1032,7 @@ func (r *runner) transforms(g *rg.G, id, repr string, rnd *engine.Rng, o pipeOpt
 			caseKey, detail := base("InducedSubgraph")
 			caseKey += "|V=" + ints(V...)
 			detail["V"] = append([]int{}, V...)
-			in, edit := input(c, g, repr, rnd)
+			in, edit := get(detail)
 			if in == nil {
 				break
 			}
@@ -1032,6 +1105,9 @@ func (r *runner) transforms(g *rg.G, id, repr string, rnd *engine.Rng, o pipeOpt
 	} else if n >= 1 {
 		es := g.Edges()
 		for k := 0; k < 6; k++ {
+			if o.light && k%3 != 0 {
+				continue // light: one pair that is an edge, one random pair
+			}
 			i := rnd.Intn(n)
 			j := rnd.Intn(n)
 			if k < 3 && len(es) > 0 {
@@ -1051,7 +1127,10 @@ func (r *runner) transforms(g *rg.G, id, repr string, rnd *engine.Rng, o pipeOpt
 			caseKey, detail := base("SplitEdge")
 			caseKey += fmt.Sprintf("|%d,%d", i, j)
 			detail["i"], detail["j"] = i, j
-			_, edit := input(c, g, repr, rnd)
+			_, edit := get(detail)
+			if edit == nil {
+				continue // the argument could not be built (counted in extraInput)
+			}
 			m := g.Copy()
 			m.Del(i, j)
 			m = m.AddVertex([]int{i, j})
@@ -1070,7 +1149,10 @@ func (r *runner) transforms(g *rg.G, id, repr string, rnd *engine.Rng, o pipeOpt
 			caseKey, detail := base("Contract")
 			caseKey += fmt.Sprintf("|%d,%d", i, j)
 			detail["i"], detail["j"] = i, j
-			_, edit := input(c, g, repr, rnd)
+			_, edit := get(detail)
+			if edit == nil {
+				continue
+			}
 			m := g.Copy()
 			for _, v := range g.Nbrs(j) {
 				m.Add(i, v)
@@ -1201,13 +1283,14 @@ func graphUnits(c *engine.Ctx) []unit {
 			r.newDense(g, gid(g))
 			r.newSparse(g, gid(g), rnd)
 			r.decoders(g, gid(g))
+			r.freedoms(g, gid(g), rnd)
 		}
 	}})
 	return us
 }
 
 func run(c *engine.Ctx) {
-	r := &runner{c: c, muted: map[string]bool{}}
+	r := &runner{c: c, muted: map[string]bool{}, vsrc: variantSources(), madeOK: map[string]bool{}}
 	var us []unit
 	us = append(us, familyUnits(c)...)
 	us = append(us, pruferUnits(c)...)
